@@ -172,6 +172,7 @@ Theorem C01_source_shape :
   gen_change_threshold = change_threshold /\ gen_max_keep = max_keep /\ gen_max_oracles = max_oracles /\
   gen_power_reduction = power_reduction /\
   (gen_writer_sites = expected_writer_sites \/ gen_writer_sites = expected_writer_sites_repaired) /\
-  gen_raw_key_users = expected_raw_key_users.
+  gen_raw_key_users = expected_raw_key_users /\
+  gen_getalloracles_loop = "for init=false; iterator.Valid(); iterator.Next(); early exits=0"%string.
 Proof. exact gen_matches_model. Qed.
 Print Assumptions C01_source_shape.
